@@ -76,6 +76,45 @@ CHECKS.update({
             'GC finalisation, asyncgen hooks, tracebacks.', 'DESIGN §4 C08'),
 })
 
+CHECKS.update({
+    'C04': ('Lean 4 refinement proof (model of the generated call wrapper = CPython\'s argument binding, for every signature and call) + '
+            'three-way differential: bare call || real decorated call with recording validators || model',
+            'Theorems (Props/C04.lean), for every signature (five kinds, any annotated subset, any defaults) and every call: iter_func_args\' '
+            'arithmetic yields the declared parameters with kinds and indices; when the call binds, the wrapper\'s (parameter, value) checks are, '
+            'as a multiset, exactly the passed values paired with the annotated parameters CPython binds them to (each *args item, each excess '
+            'keyword incl. one colliding with a positional-only name; unpassed defaults never); an unbindable call ends in TypeError or a '
+            'parameter violation with 0 runs; if all checks pass the original runs exactly once with the same (args, kwargs) and its '
+            'result/exception comes back unchanged; a failing parameter check means 0 runs. Tie: functions exec\'d from generated source with '
+            'recording validators, called bare (validates pyBind) and decorated, over every signature with <=1 parameter per kind x call shapes, '
+            'all kind-count vectors <=2 per kind, random signatures; the oracle is evaluated on the real outputs.',
+            'Trusted: Lean kernel + standard axioms; the harness; CPython 3.12 binding modelled by pyBind (validated against the bare call on '
+            'every case); the per-parameter check is abstract (C01/C02). Not covered: bound methods/classes (C13), coroutines/generators (C08), '
+            'non-default configurations.', 'DESIGN §4 C04'),
+    'C13': ('Lean 4 refinement proof by mutual structural induction over nested class bodies (class-decorator loop = member-wise map; '
+            'identity/idempotence with object ids) + node-for-node comparison of real decorated object graphs with the model, two-route '
+            'differential and clause oracle on generated classes, python -O in a fresh interpreter',
+            'Theorems (Props/C13.lean), for every class (functions, classmethods, staticmethods, properties, nested classes of any depth, '
+            'referenced classes, inherited members), configuration and interpreter mode: decorating a class = decorating each own member by hand, '
+            'recursively for nested classes, inherited/referenced untouched; kind, names, docs, signatures kept and the original is __wrapped__; '
+            'same class object, marked; second application returns the same object; unannotated / ignorable / @no_type_check / already wrapped / '
+            'O0 / -O / already decorated class are identities. Tie: real classes generated from source are reified, decorated for real and by the '
+            'model, object graphs compared node for node; class route vs member-by-member hand decoration on a twin (verdict vectors).',
+            'Trusted: Lean kernel + standard axioms; the harness. Identity of classmethod/staticmethod/property OBJECTS is up to the rebuilt '
+            'descriptor object (functions inside are identical objects). Assumes hints needing no class stack, is_pep557_fields=False.',
+            'DESIGN §4 C13'),
+    'C16': ('Lean 4 invariant proof over every history of interpreter runs (cache keyed by (module, marker tag); marker recipe re-observed on '
+            '/repo every run) + real subprocess run histories over a scratch tree compared with an empty-cache oracle and lock-step with the '
+            'model; forced two-thread interleavings for the concurrent clause',
+            'Theorems (Props/C16.lean), for every finite history of runs: cache files are named by the marker of the current run\'s '
+            'configuration, stock name iff unhooked, untransformed code iff stock-named; executed code is compiled from the current source '
+            'version; every module behaves as its current configuration applied to the current source iff the marker determines the AST shape '
+            '(holds for /repo\'s observed recipe, whose injectivity is re-decided on every run). Concurrent imports: proved for serial '
+            'schedules, false in general (counterexample theorems; known findings F-C16b). Tie: marker table observed for all 18 shape-option '
+            'combinations; exhaustive ordered pairs of hook states, forced interleavings, seeded histories of real interpreter runs.',
+            'Trusted: Lean kernel + standard axioms; the harness; CPython import system and .pyc stamping modelled (validated lock-step). '
+            'Partial: concurrent clause proved for serial schedules only - the code violates it under interleaving (F-C16b).', 'DESIGN §4 C16'),
+})
+
 PENDING = {
 }
 
